@@ -7,6 +7,9 @@ from .. import harness, ir, qz, tfg, evalr
 
 PROP = "C04"
 EPS = 1e-7
+from fractions import Fraction as _Fr
+_ke = _Fr(float(np.float32(1e-7)))
+KEPS = z3.Q(_ke.numerator, _ke.denominator)        # tf.keras.backend.epsilon() as the float32 constant the graph really uses
 
 
 # ---------------------------------------------------------------------------------------------------
@@ -117,9 +120,15 @@ def tensor_part(run, rng, thorough):
     bad = qz.validate_tensor(tr, q, ts)
     run.validated_points += len(ts)
     run.validated_graphs += 1
+    fp_exact = not bad
     if bad:
-      run.inconclusive_("translator mismatch for %s: %s" % (cfg, str(bad[:1])[:300]))
-      continue
+      # reductions over more than three elements: the kernel's summation order is not index order.  The real-arithmetic
+      # clauses do not depend on it; the translation is then validated to float tolerance and no bit-exact claim is made.
+      close = all(np.allclose(np.asarray(e_), np.asarray(r_), rtol=1e-5, atol=1e-7) for (_, e_, r_) in bad)
+      if not close:
+        run.inconclusive_("translator mismatch for %s: %s" % (cfg, str(bad[:1])[:300]))
+        continue
+      run.aux["validated_to_tolerance_only"] = run.aux.get("validated_to_tolerance_only", 0) + 1
     run.configs.append(cfg)
     meta = dict(cls=cls, kw=kw, shape=list(shape), part="tensor")
     po2 = kw.get("alpha") == "auto_po2"
@@ -165,7 +174,7 @@ def tensor_part(run, rng, thorough):
         n = len(ps)
         mean_cc = z3.Sum([cvars[p] * cvars[p] for p in ps]) / n
         mean_xc = z3.Sum([(xv[p] if xv[p] is not None else 0) * cvars[p] for p in ps]) / n
-        neg.append(sg * (mean_cc + z3.RealVal("1e-7")) != mean_xc)
+        neg.append(sg * (mean_cc + KEPS) != mean_xc)
       for pos in codes:
         neg.append(vals[tr.out[pos].nid] != vals[Sb[pos].nid] * cvars[pos])
       assumptions = [z3.Or(cv == -1, cv == 0, cv == 1) for cv in cvars.values()]
@@ -183,7 +192,7 @@ def tensor_part(run, rng, thorough):
       run.add("C%02d_code" % idx, ir.build_smt(b, [qz.finite_normal(x0), ir.L("(not %s)" % good, c0, x0)]), meta=dict(meta, clause="code_sign"))
     # D. floating-point facts about the scale on the smallest shapes: non-negative, finite, power of two within bounds
     small = int(np.prod(shape)) <= 4 and len(groups) <= 2 and cls == "binary"
-    if small or (thorough and int(np.prod(shape)) <= 6 and cls == "binary"):
+    if fp_exact and (small or (thorough and int(np.prod(shape)) <= 6 and cls == "binary")):
       xs = tr.xs()
       dom = []
       for xn in xs:
